@@ -1,4 +1,4 @@
-import Hdc.Gen.NumKernels
+import Hdc.Gen.NumBase
 import Hdc.Lemmas.GenKernels
 /-
 Generic lemmas for the refinement proofs "generated translation of a floating-point loop kernel =
